@@ -296,7 +296,7 @@ def run_lines_resilient(exe, lines, args=()):
         ts = [threading.Thread(target=f, daemon=True) for f in (feed, read, readerr)]
         for t in ts:
             t.start()
-        got, hung = 0, False
+        got, hung, last_seq = 0, False, None
         while True:
             try:
                 l = q.get(timeout=stall)
@@ -309,7 +309,14 @@ def run_lines_resilient(exe, lines, args=()):
             if not l.strip():
                 continue
             seq, _, rest = l.rstrip("\n").partition(" ")
+            if not seq.isdigit():
+                # continuation of a multi-line answer (the harness flattens panic messages; this keeps the oracle
+                # verdict attached to its scenario even if some other text slips through)
+                if last_seq is not None:
+                    ans[last_seq] += "_" + l.strip().replace(" ", "_") if " | orc=" not in l else " " + l.strip()
+                continue
             ans[seq] = rest
+            last_seq = seq
             got += 1
         p.wait()
         for t in ts:
